@@ -80,7 +80,11 @@ def refactors_table() -> str:
     tot = {w: sum(1 for d in rdir.iterdir() if (d / "meta.json").exists() and json.loads((d / "meta.json").read_text()).get("wave", 1) == w)
            for w in n_arr}
     rows.append("")
-    rows.append("Silent for all 18 checks: " + "; ".join(f"round {w}: {a} of {tot[w]} at arrival, {b} of {tot[w]} now" for w, (a, b) in sorted(n_arr.items()) if tot[w]) + ".")
+    has_arr = {w: any((d / "meta.json").exists() and json.loads((d / "meta.json").read_text()).get("wave", 1) == w
+                      and json.loads((d / "meta.json").read_text()).get("verdict_at_arrival") is not None for d in rdir.iterdir()) for w in n_arr}
+    rows.append("Silent for all 18 checks: " + "; ".join(
+        f"round {w}: " + (f"{a} of {tot[w]} at arrival, " if has_arr[w] else "(at arrival: see the text above) ") + f"{b} of {tot[w]} now"
+        for w, (a, b) in sorted(n_arr.items()) if tot[w]) + ".")
     return "\n".join(rows)
 
 
